@@ -760,7 +760,7 @@ func runToy(e *env, withNilCtx bool) {
 	c, t := e.c, e.c.T
 	n := 1 + t.Draw("toys", 5)
 	specs := make([]toySpec, n)
-	allowed := []outcome{outFinish, outPartial, outCancelState, outFailNil, outFailState}
+	allowed := []outcome{outFinish, outPartial, outCancelState, outFailNil, outFailState, outFailDeadline, outFailCanceled}
 	if withNilCtx {
 		allowed = append(allowed, outCancelNil)
 	}
